@@ -270,7 +270,9 @@ func runHammer(c *Case) *Obs {
 	rng := rand.New(rand.NewSource(seed))
 	late, running := 0, 0
 	for it := 0; it < iters; it++ {
-		g := xsync.NewGroup(context.Background())
+		// every other trial the group's parent context is cancelled by one more participant, at a random moment
+		parent, cancelParent := context.WithCancel(context.Background())
+		g := xsync.NewGroup(parent)
 		var start, returned, lateF, runF, inF, ready int32
 		var wg sync.WaitGroup
 		f := func(ctx context.Context) {
@@ -312,11 +314,26 @@ func runHammer(c *Case) *Obs {
 			}
 			atomic.StoreInt32(&returned, 1)
 		}()
-		for atomic.LoadInt32(&ready) < int32(nreg+1) {
+		extra := 0
+		if it%2 == 1 {
+			extra = 1
+			wg.Add(1)
+			dc := rng.Intn(400)
+			go func() {
+				defer wg.Done()
+				atomic.AddInt32(&ready, 1)
+				for atomic.LoadInt32(&start) == 0 {
+				}
+				spin(dc)
+				cancelParent()
+			}()
+		}
+		for atomic.LoadInt32(&ready) < int32(nreg+1+extra) {
 			runtime.Gosched()
 		}
 		atomic.StoreInt32(&start, 1)
 		wg.Wait()
+		cancelParent()
 		spin(2000)
 		g.StopAndWait()
 		spin(2000)
